@@ -368,8 +368,8 @@ func VerifHarness_C08_dtlcp_record_prehandshake() {
 
 // C19 — reordering inside the client's second flight: the datagram carrying ChangeCipherSpec + Finished
 // overtakes the datagram carrying ClientKeyExchange. A datagram endpoint must not treat that as fatal (the
-// overtaken datagram, or its retransmission, is still to come). Today the server latches unexpected_message
-// (known finding F11).
+// overtaken datagram, or its retransmission, is still to come). (Found as F11 — the server latched unexpected_message — and repaired in
+// /repo 4a06f1c; the harness stays as a regression lemma.)
 //
 //verif:harness props=C19 paths=200 reach=read
 func VerifHarness_C19_reordered_flight() {
